@@ -255,4 +255,10 @@ theorem buffered_next_tree {ρ' : Type} (k : Nat) (vals : List (Option Nat)) :
         (funext a; by_cases ha : a = b' <;> simp [ha, Prog.bind])
   · simp [Prog.bind, m_join, pure]
 
+/-- `ExactSizeIterator::len` of the chunk's value iterator: what is left of the announced length; no underflow as long as the
+cursor has not passed it (`next` never moves it further: `chunk_next_tree`) -/
+theorem chunk_len {ρ' : Type} (k : Nat) (it : BufferedIter) (h : it.current_idx ≤ it.initial_len) :
+    (ChunkIt.len k it : PF ρ' _) = .ret (.norm (it.initial_len - it.current_idx)) := by
+  simp [ChunkIt.len, m_fn, bind, PF.bind, Prog.bind, op_sub, h, pure]
+
 end Orx.GenThms.Proto
